@@ -106,10 +106,11 @@ ResolverInputs ==
      rk \in ({<<"ok", a>> : a \in ResolverAnswers} \cup {<<"empty", <<>>>>, <<"err", <<>>>>})} : l \in ResolverPresets}
 
 ConnectorInputs ==
-  \* (a) pre-set addresses win over an IP-literal host (whose own port is live) and over any resolver
+  \* (a) pre-set addresses (with_addr / set_addr / set_addrs) win over an IP-literal host whose own
+  \*     literal:port is a different address (live, closed or port 0) and over any resolver
   UNION {{[Base EXCEPT !.svc = "connector", !.preset = l, !.via = v, !.hostKind = hk[1], !.hostPort = hk[2],
                 !.resolver = rk[1], !.rlist = rk[2]] :
-     v \in ViaFor(l), hk \in {<<"name", "none">>, <<"ip", "pu">>},
+     v \in ViaFor(l), hk \in {<<"name", "none">>, <<"ip", "pu">>, <<"ip", "pd">>, <<"ip", "none">>},
      rk \in {<<"ok", <<"up">>>>, <<"err", <<>>>>}} : l \in Lists(V4Flavours \cap {"up", "ref"}, 1, MaxAddrs)}
   \* (b) IP literal: dialled directly at the request's port
   \cup {[Base EXCEPT !.svc = "connector", !.hostKind = "ip", !.hostPort = hp, !.setPort = sp, !.bind = b,
@@ -195,9 +196,11 @@ C19_Localhost(inp, o) ==
 
 C19_Tls(inp, o) ==
   inp.svc = "tls" =>
-     IF inp.name.valid /\ CertCovers(inp.name) /\ inp.trusted
-     THEN o.res = "ok" /\ o.echo = "intact"
-     ELSE o.res = "err"
+     \* the TCP stage went to the pre-set address of the TLS server and nowhere else
+     /\ o.peer = Addr("tls", 1) /\ o.accepted = {Addr("tls", 1)}
+     /\ IF inp.name.valid /\ CertCovers(inp.name) /\ inp.trusted
+        THEN o.res = "ok" /\ o.echo = "intact"
+        ELSE o.res = "err"
 
 C19_Holds(inp, o) == C19_Resolution(inp, o) /\ C19_Fallback(inp, o) /\ C19_Localhost(inp, o) /\ C19_Tls(inp, o)
 
@@ -284,7 +287,7 @@ Tls ==
   /\ UNCHANGED <<inp, rport, rcalls, dlist, resolved, addrs, contacted>>
   /\ LET n == IF TlsFixedName THEN (CHOOSE m \in Names : m.id = "good") ELSE inp.name
          ok == n.valid /\ inp.trusted /\ (TlsSkipsNameCheck \/ CertCovers(n)) IN
-       out' = (IF ok THEN out ELSE Err("Tls", ""))
+       out' = (IF ok THEN out ELSE [out EXCEPT !.res = "err", !.variant = "Tls"])
   /\ pc' = "done" /\ act' = [op |-> "handshake"]
 
 Next == Resolve \/ Dial \/ Tls
